@@ -991,6 +991,10 @@ func replay(c *vh.Ctx, m *vh.Model, file string) {
 	switch str("kind") {
 	case "decode", "handle":
 		checkDatagram(c, m, "replay/decode", bl("netcompat"), vh.UnHex(str("buf")))
+	case "frame-lifetime":
+		replayLifetime(c, m, rp)
+	case "discover-lifetime":
+		lifetimeDiscovery(c)
 	case "frame-tamper":
 		s := &secrets{aes: vh.UnHex(str("aes")), mac: vh.UnHex(str("mac")), egSeed: vh.UnHex(str("egress_seed")), inSeed: vh.UnHex(str("ingress_seed"))}
 		orig, t := vh.UnHex(str("original_stream")), vh.UnHex(str("tampered_stream"))
@@ -1017,7 +1021,7 @@ func main() {
 	log.Root().SetHandler(log.DiscardHandler()) // the node's own logging is not an observable
 	m := c.StartModel()
 	defer m.Close()
-	c.Res.Rule = "frame sessions between two real rlpxFrameRW (random secrets, 1-4 messages of sizes 0,1,15,16,17,31,32,33,100, 2^16 (thorough: 2^20, 2^24-2), with and without snappy): every single-byte flip, drop and truncation position of the short streams, sampled positions of the long ones; frames crafted by an authenticated peer (bad codes, size-field lies, over-limit snappy lengths); discovery datagrams: valid packets of the four types in both network modes, every truncation, every single-byte mutation, every truncation and mutation of the signed data re-signed by an attacker key, signed random bodies, unsigned random strings; aqua sub-protocol payloads for every message code on a mock peer; RLPx auth/ack packets (real, truncated, mutated, size-prefix lies, correctly encrypted adversarial bodies, noise) through readHandshakeMsg and the full handshake functions, stalling peers over net.Pipe. A case is distinct and non-trivial when the decoder got past authentication (accepted, bad body or panic) or is a distinct session/limit probe."
+	c.Res.Rule = "frame sessions between two real rlpxFrameRW (random secrets, 1-4 messages of sizes 0,1,15,16,17,31,32,33,100, 2^16 (thorough: 2^20, 2^24-2), with and without snappy): every single-byte flip, drop and truncation position of the short streams, sampled positions of the long ones; frames crafted by an authenticated peer (bad codes, size-field lies, over-limit snappy lengths); discovery datagrams: valid packets of the four types in both network modes, every truncation, every single-byte mutation, every truncation and mutation of the signed data re-signed by an attacker key, signed random bodies, unsigned random strings; aqua sub-protocol payloads for every message code on a mock peer; lifetime of delivered data: sessions of 2..8 messages read under consumption schedules (all reads first, reverse, lagging, partial, discarded, random) with a writer that reuses its payload buffer, and discovery packets decoded from one reused read buffer; RLPx auth/ack packets (real, truncated, mutated, size-prefix lies, correctly encrypted adversarial bodies, noise) through readHandshakeMsg and the full handshake functions, stalling peers over net.Pipe. A case is distinct and non-trivial when the decoder got past authentication (accepted, bad body or panic) or is a distinct session/limit probe."
 	// watchdog + memory ceiling for "never fatal"
 	debug.SetMemoryLimit(3 << 30)
 	go func() {
@@ -1054,7 +1058,9 @@ func main() {
 	finishHandshake := handshake(c, m)
 	th := time.Now()
 	frames(c, m)
+	lifetimeFrames(c, m)
 	t1 := time.Now()
+	lifetimeDiscovery(c)
 	discovery(c, m)
 	t2 := time.Now()
 	subproto(c, m)
